@@ -609,7 +609,12 @@ TEXT = {
           "kinds of hostile answers, hostile helpers, import batches assembled from two peers) are exercised by the stream "
           "p2p-net on a node in a child process behind a real p2p.Server with raw RLPx clients; monitors: process survival, the node "
           "reaches the honest peer's height within deadlines derived from the real time-outs, honest peers are never disconnected, the "
-          "peer that delivered a refused momentum is. All p2p streams run with production-like logging (every record formatted at debug "
+          "peer that delivered a refused momentum is. The encryption handshake in BOTH directions (auth messages sent to the node, auth "
+          "responses to a node that dials the harness, every field family hostile behind a correct ECIES envelope, hostile envelopes, "
+          "truncated / half-open / trailing / replayed) and SOLICITED discovery replies (the full bonding exchange and Table.Lookup "
+          "answered with correctly signed hostile pongs / neighbors) are exercised by the stream p2p-hs, also against a child process, "
+          "with monitors only (survival, honest peers served, the node still dials, half-open connections time out, a lookup returns). "
+          "All p2p streams run with production-like logging (every record formatted at debug "
           "level). FU1 (errInvalidChain from any peer's mis-numbered block pack dropped the honest origin peer) and FU2 (a stale "
           "processCh value after a cancelled synchronisation stalled the downloader for ever), found by this stream, are repaired "
           "(7ec6f07 + 5b338e6, 4fc5ee4). The downloader model abstracts the goroutines to event interleavings and MODELS Go channels "
